@@ -19,6 +19,10 @@ pub enum Op {
     /// 0 = Last, 1 = High, 2 = Low
     Priority(u8),
     Retrigger(bool),
+    /// the byte pattern fed n times in a row (run-length form). The first two repetitions go through the normal
+    /// byte-by-byte comparison; if the reference state is the same after both, the remaining n-2 repetitions are
+    /// fed to the real receiver only and all getters are compared once at the end
+    Repeat(Vec<u8>, u64),
 }
 
 #[derive(Clone, Debug)]
@@ -58,6 +62,7 @@ impl History {
                         Op::PollFalling => "poll_falling".into(),
                         Op::Priority(p) => format!("priority {}", p),
                         Op::Retrigger(b) => format!("retrigger {}", *b as u8),
+                        Op::Repeat(p, n) => format!("repeat {} {}", n, p.iter().map(|b| format!("{:02x}", b)).collect::<Vec<_>>().join(" ")),
                         Op::Byte(_) => unreachable!(),
                     });
                 }
@@ -81,6 +86,14 @@ impl History {
                 "poll_falling" => ops.push(Op::PollFalling),
                 "priority" => ops.push(Op::Priority(pu(it.next().ok_or("arg")?)? as u8)),
                 "retrigger" => ops.push(Op::Retrigger(pu(it.next().ok_or("arg")?)? != 0)),
+                "repeat" => {
+                    let n = pu(it.next().ok_or("arg")?)?;
+                    let mut p = Vec::new();
+                    for b in it {
+                        p.push(u8::from_str_radix(b, 16).map_err(|e| format!("bad byte {}: {}", b, e))?);
+                    }
+                    ops.push(Op::Repeat(p, n));
+                }
                 x => return Err(format!("unknown midi op '{}'", x)),
             }
         }
@@ -95,6 +108,7 @@ impl History {
                 Op::PollFalling => s.push_str("F? "),
                 Op::Priority(p) => s.push_str(&format!("prio{} ", p)),
                 Op::Retrigger(b) => s.push_str(&format!("retrig{} ", *b as u8)),
+                Op::Repeat(p, n) => s.push_str(&format!("{:02x?}x{} ", p, n)),
             }
         }
         if self.ops.len() > 40 {
@@ -408,6 +422,128 @@ fn byte_class(b: u8, ch: u8) -> u8 {
 
 /// Execute one history on the real receiver, comparing with the reference after every byte.
 pub fn execute(h: &History, want: &str, rep: &mut Report) -> Option<Violation> {
+    if h.ops.iter().any(|o| matches!(o, Op::Repeat(_, _))) {
+        return execute_with_repeats(h, want, rep);
+    }
+    execute_plain(h, want, rep).0
+}
+
+/// snapshot of everything the reference carries, to detect a fixed point of a repeated pattern
+fn ref_fingerprint(x: &ExecState) -> String {
+    format!("{:?}|{:?}|{}|{}|{:?}|{}|{}|{}", x.rf.held, x.rf.out, x.rf.rising, x.rf.falling, x.dec, x.rf.priority, x.rf.retrigger, x.observed)
+}
+
+pub struct ExecState {
+    pub m: MonoMidiReceiver,
+    pub dec: RefDecoder,
+    pub rf: RefReceiver,
+    pub observed: bool,
+    pub gate_seen: bool,
+}
+
+/// histories with Repeat ops: the plain executor is run segment by segment on a carried state
+fn execute_with_repeats(h: &History, want: &str, rep: &mut Report) -> Option<Violation> {
+    let mut st: Option<ExecState> = None;
+    let mut seg: Vec<Op> = Vec::new();
+    let mut done_ops = 0usize;
+    let run_seg = |seg: &mut Vec<Op>, st: &mut Option<ExecState>, rep: &mut Report, base: usize| -> Option<Violation> {
+        if seg.is_empty() && st.is_some() {
+            return None;
+        }
+        let hh = History { channel_arg: h.channel_arg, ops: std::mem::take(seg) };
+        let (v, s2) = execute_from(&hh, want, rep, st.take());
+        *st = s2;
+        v.map(|mut v| {
+            // the replay is the whole history up to this segment (Repeat ops kept in run-length form)
+            let upto = (base + hh.ops.len()).min(h.ops.len()).saturating_sub(1);
+            v.replay = h.to_text(if want == "ALL" { "C06" } else { want }, upto);
+            v
+        })
+    };
+    for op in h.ops.iter() {
+        match op {
+            Op::Repeat(pattern, n) => {
+                if let Some(v) = run_seg(&mut seg, &mut st, rep, done_ops) {
+                    return Some(v);
+                }
+                done_ops += 0;
+                let once: Vec<Op> = pattern.iter().map(|b| Op::Byte(*b)).collect();
+                let mut remaining = *n;
+                let mut prints: Vec<String> = Vec::new();
+                // the first two repetitions (and all of them when the count is small) under full comparison
+                while remaining > 0 {
+                    let mut s1 = once.clone();
+                    if let Some(mut v) = run_seg(&mut s1, &mut st, rep, done_ops) {
+                        v.replay = h.to_text(if want == "ALL" { "C06" } else { want }, h.ops.len());
+                        return Some(v);
+                    }
+                    remaining -= 1;
+                    let fp = st.as_ref().map(ref_fingerprint).unwrap_or_default();
+                    prints.push(fp);
+                    let k = prints.len();
+                    if k >= 2 && prints[k - 1] == prints[k - 2] && remaining > 8 {
+                        break;
+                    }
+                    if k > 64 && remaining > 100_000 {
+                        rep.count("midi.repeat_without_fixed_point_skipped", 1);
+                        remaining = 0;
+                    }
+                }
+                if remaining > 0 {
+                    // the reference is at a fixed point: the rest goes to the real receiver only
+                    let stt = st.as_mut().unwrap();
+                    let res = guard(|| {
+                        for _ in 0..remaining {
+                            for b in pattern.iter() {
+                                stt.m.parse(*b);
+                            }
+                        }
+                    });
+                    rep.evaluations += remaining * pattern.len() as u64;
+                    rep.count("midi.repeat_fast_forwarded_bytes", remaining * pattern.len() as u64);
+                    if let Err(p) = res {
+                        return Some(Violation { clause: "panic".into(), signature: format!("{}:panic:{}", want, p), message: format!("panicked while a pattern was repeated {} times: {}", n, p), replay: h.to_text(want, h.ops.len()) });
+                    }
+                    stt.gate_seen = stt.m.gate();
+                    // one more repetition under full comparison shows any divergence that built up
+                    let mut s1 = once.clone();
+                    if let Some(mut v) = run_seg(&mut s1, &mut st, rep, done_ops) {
+                        v.message = format!("after a pattern was repeated {} times: {}", n, v.message);
+                        v.replay = h.to_text(if want == "ALL" { "C06" } else { want }, h.ops.len());
+                        return Some(v);
+                    }
+                }
+                done_ops += 1;
+            }
+            other => {
+                seg.push(other.clone());
+            }
+        }
+        if !matches!(op, Op::Repeat(_, _)) {
+            // segments are flushed lazily; count ops for the replay cut
+        }
+    }
+    let n_tail = seg.len();
+    let v = run_seg(&mut seg, &mut st, rep, done_ops);
+    let _ = n_tail;
+    v.map(|mut v| {
+        v.replay = h.to_text(if want == "ALL" { "C06" } else { want }, h.ops.len());
+        v
+    })
+}
+
+pub fn execute_plain(h: &History, want: &str, rep: &mut Report) -> (Option<Violation>, Option<ExecState>) {
+    execute_from(h, want, rep, None)
+}
+
+/// Execute `h` starting from a carried state (or a fresh receiver); returns the state for continuation.
+pub fn execute_from(h: &History, want: &str, rep: &mut Report, start: Option<ExecState>) -> (Option<Violation>, Option<ExecState>) {
+    let mut carried: Option<ExecState> = None;
+    let v = execute_inner(h, want, rep, start, &mut carried);
+    (v, carried)
+}
+
+fn execute_inner(h: &History, want: &str, rep: &mut Report, start: Option<ExecState>, carry_out: &mut Option<ExecState>) -> Option<Violation> {
     let mk = |prop: &str, clause: &str, msg: String, i: usize| -> Violation {
         Violation { clause: clause.to_string(), signature: format!("{}:{}", prop, clause), message: format!("{} [channel_arg={} op#{}]", msg, h.channel_arg, i), replay: h.to_text(prop, i) }
     };
@@ -425,16 +561,17 @@ pub fn execute(h: &History, want: &str, rep: &mut Report) -> Option<Violation> {
             }
         };
     }
-    let mut m = call!(MonoMidiReceiver::new(h.channel_arg), 0);
-    let mut dec = RefDecoder::default();
-    let mut rf = RefReceiver::new(h.channel_arg);
+    let (mut m, mut dec, mut rf, start_observed, start_gate) = match start {
+        Some(s) => (s.m, s.dec, s.rf, s.observed, s.gate_seen),
+        None => (call!(MonoMidiReceiver::new(h.channel_arg), 0), RefDecoder::default(), RefReceiver::new(h.channel_arg), false, false),
+    };
     let mut effects = [0u64; 16];
     let mut polls = [[0u64; 2]; 2];
     let mut n_bytes = 0u64;
     let mut n_msgs = 0u64;
     let mut since_change_r = 0u8; // messages since the rising latch was last set (class only)
-    let mut observed_gate_mode = false;
-    let mut gate_seen = false; // gate() as read after the previous byte
+    let mut observed_gate_mode = start_observed;
+    let mut gate_seen = start_gate; // gate() as read after the previous byte
     for (i, op) in h.ops.iter().enumerate() {
         match op {
             Op::Byte(b) => {
@@ -531,6 +668,9 @@ pub fn execute(h: &History, want: &str, rep: &mut Report) -> Option<Violation> {
                     break;
                 }
             }
+            Op::Repeat(_, _) => {
+                // handled by execute_with_repeats
+            }
             Op::Priority(p) => {
                 let pr = match p {
                     0 => NotePriority::Last,
@@ -562,6 +702,7 @@ pub fn execute(h: &History, want: &str, rep: &mut Report) -> Option<Violation> {
     rep.count("midi.poll.rising.false", polls[1][0]);
     rep.count("midi.poll.falling.true", polls[0][1]);
     rep.count("midi.poll.falling.false", polls[0][0]);
+    *carry_out = Some(ExecState { m, dec, rf, observed: observed_gate_mode, gate_seen });
     None
 }
 
@@ -579,7 +720,7 @@ pub fn run_and_record(h: &History, want: &str, rep: &mut Report, sample: bool) {
 
 /// shrink a failing history while the same clause keeps firing; the replay text of the result is minimal-ish
 pub fn shrink(h: &History, want: &str, v: Violation) -> Violation {
-    if h.ops.len() > 20_000 {
+    if h.ops.len() > 20_000 || h.ops.iter().any(|o| matches!(o, Op::Repeat(_, n) if *n > 100_000)) {
         return v;
     }
     let sig = v.signature.clone();
@@ -810,6 +951,190 @@ pub fn gen_full_buffer(r: &mut Rng, polls: bool) -> History {
         e.ops.push(Op::PollFalling);
     }
     History { channel_arg, ops: e.ops }
+}
+
+/// every controller and the pitch bend set to a mid value first, so that any hidden change shows in a getter
+fn preset_controllers(e: &mut Emit, ch: u8, r: &mut Rng) {
+    for cc in [1u8, 5, 7, 71, 74] {
+        e.msg(0xB0 | ch, &[cc, 20 + r.below(100) as u8], r.chance(0.5));
+    }
+    e.msg(0xB0 | ch, &[64, if r.chance(0.5) { 0 } else { 127 }], false);
+    e.msg(0xB0 | ch, &[65, if r.chance(0.5) { 0 } else { 127 }], false);
+    e.msg(0xE0 | ch, &[r.below(128) as u8, r.below(128) as u8], false);
+    e.msg(0x90 | ch, &[60, 100], false);
+}
+
+/// universal system exclusive messages (real-time 7F and non-real-time 7E) with arbitrary parameter bytes, device
+/// ids {all-call, the listened channel, arbitrary}, with and without real-time bytes inside, terminated by F7 or by
+/// the next status byte; and manufacturer SysEx with payloads that look like channel messages (C06)
+pub fn gen_sysex(r: &mut Rng) -> History {
+    let channel_arg = r.below(16) as u8;
+    let ch = channel_arg;
+    let mut e = Emit::new();
+    preset_controllers(&mut e, ch, r);
+    // (sub-id 1, sub-id 2, number of data bytes)
+    const RT: [(u8, u8, usize); 12] = [(0x04, 0x01, 2), (0x04, 0x02, 2), (0x04, 0x03, 2), (0x04, 0x04, 2), (0x04, 0x05, 6), (0x01, 0x01, 4), (0x02, 0x00, 3), (0x03, 0x01, 0), (0x06, 0x01, 0), (0x08, 0x02, 5), (0x09, 0x01, 2), (0x0A, 0x01, 3)];
+    const NRT: [(u8, u8, usize); 8] = [(0x09, 0x01, 0), (0x09, 0x02, 0), (0x09, 0x03, 0), (0x06, 0x01, 0), (0x06, 0x02, 10), (0x08, 0x00, 1), (0x7E, 0x00, 1), (0x7F, 0x00, 1)];
+    for _ in 0..(2 + r.below(6)) {
+        e.raw(0xF0);
+        let style = r.below(10);
+        if style < 7 {
+            let rt = r.chance(0.7);
+            e.raw(if rt { 0x7F } else { 0x7E });
+            e.raw(match r.below(4) {
+                0 | 1 => 0x7F,
+                2 => ch,
+                _ => r.below(128) as u8,
+            });
+            let (s1, s2, n) = if rt { *r.pick(&RT) } else { *r.pick(&NRT) };
+            e.raw(s1);
+            e.raw(s2);
+            for _ in 0..n {
+                if r.chance(0.1) {
+                    e.raw(*r.pick(&[0xF8u8, 0xFE, 0xFA]));
+                }
+                e.raw(match r.below(4) {
+                    0 => 0,
+                    1 => 0x7F,
+                    2 => 0x40,
+                    _ => r.below(128) as u8,
+                });
+            }
+        } else {
+            // manufacturer id + a payload that looks like note / controller messages
+            e.raw(*r.pick(&[0x41u8, 0x43, 0x00, 0x7D]));
+            for _ in 0..r.below(12) {
+                e.raw(*r.pick(&[60u8, 100, 7, 1, 123, 121, 0, 127, 64]));
+            }
+        }
+        match r.below(5) {
+            0 => {} // unterminated: the next status byte ends it
+            _ => e.raw(0xF7),
+        }
+        // traffic after it, with running status that must have been cancelled
+        match r.below(4) {
+            0 => {
+                e.raw(61);
+                e.raw(100);
+            }
+            1 => e.msg(0xB0 | ch, &[7, 20 + r.below(100) as u8], false),
+            2 => e.msg(0x90 | ch, &[62 + r.below(5) as u8, 1 + r.below(127) as u8], false),
+            _ => e.raw(0xF8),
+        }
+    }
+    e.msg(0xB0 | ch, &[7, 99], false);
+    e.msg(0x80 | ch, &[60, 0], false);
+    History { channel_arg, ops: e.ops }
+}
+
+/// registered / non-registered parameter sequences (CC 101/100, 99/98, data entry 6/38, increment 96 / decrement 97)
+/// and bank select: none of these controller numbers may change anything, alone or in sequence (C06, C18)
+pub fn gen_rpn_nrpn(r: &mut Rng, ch_arg: u8) -> History {
+    let ch = ch_arg.min(15);
+    let mut e = Emit::new();
+    preset_controllers(&mut e, ch, r);
+    for _ in 0..(4 + r.below(20)) {
+        let run = r.chance(0.6);
+        let (msb_cc, lsb_cc) = if r.chance(0.5) { (99u8, 98u8) } else { (101, 100) };
+        let msb = *r.pick(&[0u8, 0, 0, 1, 2, 0x7F, 3]);
+        let lsb = match r.below(4) {
+            0 => *r.pick(&[1u8, 5, 7, 64, 65, 71, 74, 121, 123]),
+            1 => *r.pick(&[0u8, 1, 2, 3, 4, 5, 0x7F]),
+            _ => r.below(128) as u8,
+        };
+        if r.chance(0.85) {
+            e.msg(0xB0 | ch, &[msb_cc, msb], run);
+        }
+        if r.chance(0.9) {
+            e.msg(0xB0 | ch, &[lsb_cc, lsb], run);
+        }
+        if r.chance(0.2) {
+            // something else in between
+            match r.below(3) {
+                0 => e.msg(0x90 | ch, &[70, 90], run),
+                1 => e.msg(0xE0 | ch, &[r.below(128) as u8, r.below(128) as u8], run),
+                _ => e.raw(0xF8),
+            }
+        }
+        for _ in 0..(1 + r.below(3)) {
+            match r.below(5) {
+                0 | 1 => e.msg(0xB0 | ch, &[6, r.below(128) as u8], run),
+                2 => e.msg(0xB0 | ch, &[38, r.below(128) as u8], run),
+                3 => e.msg(0xB0 | ch, &[96, r.below(128) as u8], run),
+                _ => e.msg(0xB0 | ch, &[97, r.below(128) as u8], run),
+            }
+        }
+        if r.chance(0.3) {
+            // the null parameter, bank select, a program change
+            e.msg(0xB0 | ch, &[101, 0x7F], run);
+            e.msg(0xB0 | ch, &[100, 0x7F], run);
+            e.msg(0xB0 | ch, &[0, r.below(128) as u8], run);
+            e.msg(0xB0 | ch, &[32, r.below(128) as u8], run);
+            e.msg(0xC0 | ch, &[r.below(128) as u8], false);
+        }
+    }
+    History { channel_arg: ch_arg, ops: e.ops }
+}
+
+/// a short message pattern repeated a power-of-two number of times while a key is held (a wrapped message or edge
+/// counter would show in the polls and getters afterwards): 2^8 / 2^16 / 2^20 in the quick tier, 2^32 in the thorough tier
+pub fn repeat_storms(ctx: &Ctx, want: &str) -> Report {
+    if ctx.tier == Tier::Small {
+        return Report::new();
+    }
+    let mut counts: Vec<u64> = vec![254, 255, 256, 257, 65_535, 65_536, 65_537, 1 << 20];
+    if ctx.tier == Tier::Thorough {
+        counts.extend([(1u64 << 32) - 1, 1 << 32]);
+    }
+    let mut jobs: Vec<(u64, u8)> = Vec::new();
+    for c in &counts {
+        for kind in 0..4u8 {
+            if *c >= 1 << 31 && kind >= 2 {
+                continue;
+            }
+            jobs.push((*c, kind));
+        }
+    }
+    par_shards(ctx, jobs.len(), |j| {
+        let mut rep = Report::new();
+        let (n, kind) = jobs[j];
+        let mut r = Rng::derive(ctx.seed, "midi.repeat", j as u64);
+        let ch = r.below(16) as u8;
+        let (drone, key) = (40 + r.below(20) as u8, 70 + r.below(20) as u8);
+        let mut e = Emit::new();
+        e.ops.push(Op::Retrigger(kind % 2 == 0));
+        e.ops.push(Op::Priority(r.below(3) as u8));
+        e.msg(0x90 | ch, &[drone, 90], false);
+        e.ops.push(Op::PollRising);
+        e.ops.push(Op::PollFalling);
+        let pattern: Vec<u8> = match kind {
+            0 | 1 => vec![0x90 | ch, key, 100, 0x80 | ch, key, 0],
+            2 => vec![0x90 | ch, key, 100, key, 0],                              // running status, velocity-0 release
+            _ => vec![0xB0 | ch, 1, 10, 1, 20, 0xE0 | ch, 5, 6, 0xB0 | ch, 7, 3], // controllers and pitch bend
+        };
+        e.ops.push(Op::Repeat(pattern, n));
+        e.ops.push(Op::PollRising);
+        e.ops.push(Op::PollFalling);
+        e.ops.push(Op::PollRising);
+        e.msg(0x90 | ch, &[key, 64], false);
+        e.ops.push(Op::PollRising);
+        e.msg(0x80 | ch, &[key, 0], false);
+        e.msg(0x80 | ch, &[drone, 0], false);
+        e.ops.push(Op::PollFalling);
+        e.ops.push(Op::PollRising);
+        e.ops.push(Op::PollFalling);
+        let h = History { channel_arg: ch, ops: e.ops };
+        if j == 0 {
+            rep.sample(h.brief());
+        }
+        // all getters and both latches are judged (whatever the wanted property, the storm is the same)
+        let w = if want == "C17" { "C17" } else if want == "C05" { "C05" } else { want };
+        if let Some(v) = execute(&h, w, &mut rep) {
+            rep.violate(v);
+        }
+        rep.count("midi.repeat_storm_histories", 1);
+        rep
+    })
 }
 
 const RT: [u8; 8] = [0xF8, 0xF9, 0xFA, 0xFB, 0xFC, 0xFD, 0xFE, 0xFF];
@@ -1128,6 +1453,8 @@ pub fn run(ctx: &Ctx, prop: &str) -> Report {
                 rep
             });
             stage("midi.note_traffic", r, &mut rep, t);
+            let t = std::time::Instant::now();
+            stage("midi.repeat_storms", repeat_storms(ctx, prop), &mut rep, t);
             if !small {
                 rep.floor("midi.drone_melody_histories", 50);
                 rep.floor("midi.full_buffer_histories", 100);
@@ -1180,6 +1507,21 @@ pub fn run(ctx: &Ctx, prop: &str) -> Report {
                 rep
             });
             stage("midi.unstructured_bytes", r, &mut rep, t);
+            let t = std::time::Instant::now();
+            let n_sx = ctx.budget(6, 20_000, 1_000_000) as usize;
+            let r = par_shards(ctx, shards, |s| {
+                let mut rep = Report::new();
+                let mut r = Rng::derive(ctx.seed, "midi.sysex", s as u64);
+                for j in 0..(n_sx + shards - 1) / shards {
+                    let h = if j % 2 == 0 { gen_sysex(&mut r) } else { let c = r.below(16) as u8; gen_rpn_nrpn(&mut r, c) };
+                    run_and_record(&h, prop, &mut rep, s == 0 && j < 2);
+                    rep.count("midi.sysex_and_parameter_number_histories", 1);
+                }
+                rep
+            });
+            stage("midi.universal_sysex_and_rpn_nrpn", r, &mut rep, t);
+            let t = std::time::Instant::now();
+            stage("midi.repeat_storms", repeat_storms(ctx, prop), &mut rep, t);
             if !small {
                 rep.floor("midi.realtime_split_points", 16 * 100);
                 rep.floor("midi.bytes", 1_000_000);
@@ -1220,7 +1562,12 @@ pub fn run(ctx: &Ctx, prop: &str) -> Report {
                 let mut rep = Report::new();
                 let mut r = Rng::derive(ctx.seed, "midi.cc_notes", s as u64);
                 for j in 0..(n_hist + shards - 1) / shards {
-                    let h = gen_controllers_and_notes(&mut r, if small { 100 } else { 400 });
+                    let h = if j % 3 == 2 {
+                        let c = if r.chance(0.1) { 99 } else { r.below(16) as u8 };
+                        gen_rpn_nrpn(&mut r, c)
+                    } else {
+                        gen_controllers_and_notes(&mut r, if small { 100 } else { 400 })
+                    };
                     // controllers must not disturb notes and vice versa: all getters are compared
                     if let Some(mut v) = execute(&h, "ALL", &mut rep) {
                         v.signature = v.signature.replace("C04:", "C18:");
@@ -1233,6 +1580,8 @@ pub fn run(ctx: &Ctx, prop: &str) -> Report {
                 rep
             });
             stage("midi.controllers_interleaved_with_notes", r, &mut rep, t);
+            let t = std::time::Instant::now();
+            stage("midi.repeat_storms", repeat_storms(ctx, "ALL"), &mut rep, t);
             if !small {
                 rep.floor("midi.c18.channels_swept", 16);
                 rep.floor("midi.effect.ResetControllers", 1000);
